@@ -1,4 +1,7 @@
 //! Shared helpers for the correspondence harness: PRNG, protocol encoding, case files.
+pub mod gram;
+pub mod lr;
+
 use std::fmt::Write as _;
 use std::io::Write;
 
